@@ -5,8 +5,16 @@ MODULE = "EngineCore"
 
 
 def check(ctx):
+    # the real composition: the System API (`System::cancel_orders` / `close_positions` / ...) hands
+    # exactly the command it was given - with its filter - to the engine, in order
+    from props import composition
+    composition.run(ctx, composition.C19_TAGS, runs=3 if ctx.quick else 20)
     return enginecore.check(ctx)
 
 
 def replay(ctx, rp):
+    if rp.get("kind") == "system":
+        from props import composition
+        composition.run(ctx, composition.C19_TAGS, runs=3)
+        return ctx.finish(write_evidence=False)
     return enginecore.replay(ctx, rp)
